@@ -8,6 +8,7 @@ import Mathlib.Analysis.Complex.RealDeriv
 import QV.Lemmas.Deriv
 import QV.Lemmas.GradLin
 import QV.Lemmas.Cplx
+import QV.Lemmas.CplxHead
 import QV.Lemmas.Hilbert
 
 namespace QV
@@ -125,7 +126,7 @@ theorem cplxRotComp_eq (am ph : RBM ℝ n h) (dict : Char → M2 ℝ) (smp : Sam
           * (if isPhase then -((toC (cplxUpsi am ph dict smp))⁻¹ * toC (cplxCoef am ph dict smp (rowBits n k.val))).im
              else ((toC (cplxUpsi am ph dict smp))⁻¹ * toC (cplxCoef am ph dict smp (rowBits n k.val))).re) := by
   unfold cplxRotComp
-  rw [← toC_re, toC_mul, toC_inv _ hU, toC_sum, Finset.mul_sum, Complex.re_sum]
+  rw [← toC_re, toC_mul, toC_invH _ hU, toC_sum, Finset.mul_sum, Complex.re_sum]
   refine Finset.sum_congr rfl (fun k _ => ?_)
   show ((toC (cplxUpsi am ph dict smp))⁻¹ * toC (C.mul (cplxCoef am ph dict smp (rowBits n k.val))
       (if isPhase then (0, g (rowBits n k.val)) else (g (rowBits n k.val), 0)))).re = _
